@@ -181,6 +181,10 @@ def _collect_chars(ex, st, args, dest_ty, func, where):
 # ---- Option / Result combinators (closures executed from their own MIR)
 
 def call_closure(ex, st, clos, cargs, where):
+    if isinstance(clos, VOpaque) and isinstance(clos.what, tuple) and clos.what[0] == "const":
+        mm = re.search(r"\{closure@[^}]*\}", str(clos.what[1]))
+        if mm:
+            clos = VStruct(mm.group(0), [])     # `const ZeroSized: {closure@..}`: a capture-less closure
     if not isinstance(clos, VStruct) or not clos.name.startswith("{closure@"):
         raise Unsupported("not a closure value: %r" % (clos,))
     fn = ex.mir.closures.get(clos.name)
@@ -557,3 +561,134 @@ def install_collections(ex, universe, sort_cap):
     A(r"^<std::vec::IntoIter<&PathBuf> as Iterator>::next$", _vec_into_iter_next, "vec::IntoIter::next")
     A(r"^<Vec<PathBuf> as (std::ops::)?DerefMut>::deref_mut$", _deref_mut_same, "<Vec<T> as DerefMut>::deref_mut")
     A(r"^std::slice::<impl \[PathBuf\]>::sort$|^core::slice::<impl \[PathBuf\]>::sort$", _sort_ids, "<[PathBuf]>::sort (sorted permutation axioms)")
+
+
+# ----------------------------------------------------------------- std::time / std::fs metadata (arithmetic only)
+# SystemTime = VStruct("SystemTime", [secs since the epoch (may be negative), nanos]); the file system itself is
+# NOT modelled: set_modified only records what it was asked to do (ex.effects), Metadata is an input value.
+
+def _st_of(ex, st, v):
+    while isinstance(v, VRef):
+        v = ex.deref(st, v)
+    if isinstance(v, VOpaque) and isinstance(v.what, tuple) and "UNIX_EPOCH" in str(v.what[1]):
+        return VStruct("SystemTime", [VInt(I(0), "i64"), VInt(I(0), "u32")])
+    if isinstance(v, VStruct) and v.name == "SystemTime":
+        return v
+    raise Unsupported("expected a SystemTime, got %r" % (v,))
+
+
+def _unsigned_abs(ex, st, args, dest_ty, func, where):
+    x = args[0].t
+    return VInt(simp(z3.If(x < 0, -x, x)), "u64")
+
+
+def _try_from_int(ex, st, args, dest_ty, func, where):
+    m = re.search(r"<(\w+) as TryFrom<(\w+)>>::try_from", func)
+    ty = m.group(1)
+    x = args[0].t
+    return VEnum("Result", simp(z3.If(ex.in_range(x, ty), I(0), I(1))), {0: [VInt(x, ty)], 1: [VOpaque("TryFromIntError")]})
+
+
+def _res_unwrap_or(ex, st, args, dest_ty, func, where):
+    r, d = args
+    if 0 not in r.pay:
+        return d
+    return merge(simp(r.discr == 0), r.pay[0][0], d)
+
+
+def _res_ok(ex, st, args, dest_ty, func, where):
+    r = args[0]
+    return VEnum("Option", simp(z3.If(r.discr == 0, I(1), I(0))), {0: [], 1: list(r.pay.get(0, [VOpaque("none")]))})
+
+
+def _dur_from_secs(ex, st, args, dest_ty, func, where):
+    return VStruct("Duration", [VInt(args[0].t, "u64"), VInt(I(0), "u32")])
+
+
+def _dur_as_secs(ex, st, args, dest_ty, func, where):
+    d = args[0]
+    while isinstance(d, VRef):
+        d = ex.deref(st, d)
+    return VInt(d.f[0].t, "u64")
+
+
+def _systime_add(ex, st, args, dest_ty, func, where):
+    t = _st_of(ex, st, args[0])
+    d = args[1]
+    secs = simp(t.f[0].t + d.f[0].t + (t.f[1].t + d.f[1].t) / 1000000000)
+    nanos = simp((t.f[1].t + d.f[1].t) % 1000000000)
+    ex.oblig("panic", where, "overflow when adding duration to instant", z3.And(st.guard, secs > (1 << 63) - 1))
+    st.guard = simp(z3.And(st.guard, secs <= (1 << 63) - 1))
+    return VStruct("SystemTime", [VInt(secs, "i64"), VInt(nanos, "u32")])
+
+
+def _duration_since(ex, st, args, dest_ty, func, where):
+    t, e = _st_of(ex, st, args[0]), _st_of(ex, st, args[1])
+    tn = t.f[0].t * 1000000000 + t.f[1].t
+    en = e.f[0].t * 1000000000 + e.f[1].t
+    ok = simp(tn >= en)
+    diff = tn - en
+    d = VStruct("Duration", [VInt(simp(diff / 1000000000), "u64"), VInt(simp(diff % 1000000000), "u32")])
+    return VEnum("Result", simp(z3.If(ok, I(0), I(1))), {0: [d], 1: [VOpaque("SystemTimeError")]})
+
+
+def _opt_and_then(ex, st, args, dest_ty, func, where):
+    from .deltamodels import closure_of
+    opt, clos = args[0], closure_of(args[1])
+    r = _branch_on_option(ex, st, opt, lambda s, p: call_closure(ex, s, clos, [p], where), lambda s: none())
+    return r
+
+
+def _open_options(ex, st, args, dest_ty, func, where):
+    return VStruct("OpenOptions", [VBool(z3.BoolVal(False))])
+
+
+def _oo_write(ex, st, args, dest_ty, func, where):
+    ref = args[0]
+    ex.store_ref(st, ref, VStruct("OpenOptions", [args[1]]))
+    return ref
+
+
+def _oo_open(ex, st, args, dest_ty, func, where):
+    ok = ex.fresh_bool("open_ok")
+    ex.inputs = getattr(ex, "inputs", {})
+    ex.inputs.setdefault("open_ok", []).append(ok)
+    return VEnum("Result", simp(z3.If(ok, I(0), I(1))), {0: [VStruct("File", [args[1]])], 1: [VOpaque("io::Error")]})
+
+
+def _set_modified(ex, st, args, dest_ty, func, where):
+    t = _st_of(ex, st, args[1])
+    ok = ex.fresh_bool("set_modified_ok")
+    ex.effects = getattr(ex, "effects", [])
+    ex.effects.append({"guard": st.guard, "call": "File::set_modified", "time": t, "ok": ok})
+    return VEnum("Result", simp(z3.If(ok, I(0), I(1))), {0: [UNIT], 1: [VOpaque("io::Error")]})
+
+
+def _meta_modified(ex, st, args, dest_ty, func, where):
+    m = args[0]
+    while isinstance(m, VRef):
+        m = ex.deref(st, m)
+    return VEnum("Result", simp(z3.If(m.f[0].t, I(0), I(1))), {0: [m.f[1]], 1: [VOpaque("io::Error")]})
+
+
+def install_time_fs(ex):
+    from .deltamodels import closure_of  # noqa: F401
+    M = []
+
+    def A(pat, h, label):
+        M.append((re.compile(pat), h, label))
+    A(r"<impl i64>::unsigned_abs$", _unsigned_abs, "i64::unsigned_abs")
+    A(r"^<\w+ as TryFrom<\w+>>::try_from$", _try_from_int, "<int as TryFrom<int>>::try_from")
+    A(r"^(std::result::)?Result::<.*>::unwrap_or$", _res_unwrap_or, "Result::unwrap_or")
+    A(r"^(std::result::)?Result::<.*>::ok$", _res_ok, "Result::ok")
+    A(r"^(std::time::)?Duration::from_secs$", _dur_from_secs, "Duration::from_secs")
+    A(r"^(std::time::)?Duration::as_secs$", _dur_as_secs, "Duration::as_secs")
+    A(r"^<(std::time::)?SystemTime as (std::ops::)?Add<(std::time::)?Duration>>::add$", _systime_add, "SystemTime + Duration (panics on overflow)")
+    A(r"^(std::time::)?SystemTime::duration_since$", _duration_since, "SystemTime::duration_since")
+    A(r"^(std::option::)?Option::<.*>::and_then::<", _opt_and_then, "Option::and_then")
+    A(r"^std::fs::File::options$", _open_options, "File::options")
+    A(r"^std::fs::OpenOptions::write$", _oo_write, "OpenOptions::write")
+    A(r"^std::fs::OpenOptions::open::<", _oo_open, "OpenOptions::open (outcome is an arbitrary input; the FS is not modelled)")
+    A(r"^std::fs::File::set_modified$", _set_modified, "File::set_modified (recorded as an effect; outcome arbitrary)")
+    A(r"^std::fs::Metadata::modified$", _meta_modified, "Metadata::modified (input value)")
+    ex.models = M + ex.models
